@@ -1,10 +1,13 @@
 /-
 C11 — literals have the C11 value, type and encoding.
 
-Property theorems only (helper lemmas: Lemmas/LiteralsLemmas.lean).  The left-hand sides are the
+Property theorems only (helper lemmas: Lemmas/LiteralsLemmas, LiteralsReaderLemmas, TextLemmas, C11Splice, C11Locality,
+C11SpliceEol, C11Translated, C11Readers, C11Rewrite).  The left-hand sides are the
 functions translated from unicode.c / tokenize.c / type.c on every check run
-(Gen/LiteralsGen.lean) and the hand model of the readers (Model/Literals.lean, Model/Text.lean);
-the right-hand sides are Spec/LiteralsSpec.lean (C11 6.4.4, 6.4.5, Annex D; RFC 3629; RFC 2781).
+(Gen/LiteralsGen.lean: codecs, ladders, tables; Gen/LitReadersGen.lean: the reader functions and the in-place phase loops)
+and the hand model of the readers (Model/Literals.lean, Model/Text.lean), which `C11_translated_readers`,
+`C11_translated_literal_readers` and `C11_translated_phases` prove equal to the translated functions;
+the right-hand sides are Spec/LiteralsSpec.lean (C11 5.1.1.2, 6.4.4, 6.4.5, Annex D; RFC 3629; RFC 2781).
 
 Identification used throughout: chibicc has no `long long` distinct from `long`
 (`Literals.collapse`: llong ↦ ty_long, ullong ↦ ty_ulong; same size, signedness, conversions).
@@ -16,6 +19,10 @@ import ChibiVerif.Lemmas.TextLemmas
 import ChibiVerif.Lemmas.LiteralsReaderLemmas
 import ChibiVerif.Lemmas.C11Splice
 import ChibiVerif.Lemmas.C11Locality
+import ChibiVerif.Lemmas.C11Translated
+import ChibiVerif.Lemmas.C11Rewrite
+import ChibiVerif.Lemmas.C11Readers
+import ChibiVerif.Lemmas.C11SpliceEol
 
 set_option linter.unusedSimpArgs false
 
@@ -28,6 +35,11 @@ open ChibiVerif.Lemmas.Text
 open ChibiVerif.Lemmas.Readers
 open ChibiVerif.Lemmas.Splice
 open ChibiVerif.Lemmas.Locality
+open ChibiVerif.Lemmas.Translated
+open ChibiVerif.Lemmas.Rewrite
+open ChibiVerif.Lemmas.ReadersT
+open ChibiVerif.Lemmas.SpliceEol
+open ChibiVerif.LitReaders
 open ChibiVerif.Text
 
 -- ------------------------------------------------------------------ integer constants (6.4.4.1)
@@ -450,6 +462,92 @@ theorem C11_text_ucn (pre post : List Byte) (d0 d1 d2 d3 d4 d5 d6 d7 : Byte) (hp
 example : isXDigit 0x30#8 = true ∧ isXDigit 0x65#8 = true ∧ isXDigit 0x39#8 = true ∧
     digitsValue 16 [hexVal 0x30#8, hexVal 0x30#8, hexVal 0x65#8, hexVal 0x39#8] = 0xE9 := by decide
 
+-- ------------------------------------------------------------------ the reader functions as translated from tokenize.c
+
+/-- **C11 (the hand-written reader functions are the translated ones).**  `from_hex`, `read_escaped_char`,
+    `read_universal_char` and `string_literal_end` of the hand model (Model/Literals.lean, Model/Text.lean — the functions all
+    reader theorems above are about) are equal, on every input, to the functions that tools/extract/literals.py + cursor.py
+    translate from the text of tokenize.c on every check run (Gen/LitReadersGen.lean: C typing by cmini.Emitter, control flow
+    by symbolic execution; the `error_at` sites are named after their messages).  A change of an operator, constant, bound or
+    branch in one of these C functions changes the right-hand sides and breaks this theorem. -/
+theorem C11_translated_readers :
+    (∀ b : Byte, ChibiVerif.Literals.fromHex b = ChibiVerif.Gen.LitReaders.fromHex b) ∧
+    (∀ p : List Byte, readEscapedChar p = (ChibiVerif.Gen.LitReaders.readEscapedChar p).mapError ofReadErr) ∧
+    (∀ (p : List Byte) (len : Nat), readUniversalChar p len 0 = ChibiVerif.Gen.LitReaders.readUniversalChar p len) ∧
+    (∀ (p : List Byte) (i : Nat), stringLiteralEnd p i = (ChibiVerif.Gen.LitReaders.stringLiteralEnd p i).mapError ofReadErr) :=
+  ⟨fun b => (ChibiVerif.Lemmas.Translated.fromHex_eq b).symm, readEscapedChar_eq, readUniversalChar_eq, stringLiteralEnd_eq⟩
+
+/-- **C11 (the literal readers are the translated ones).**  `read_string_literal`, `read_utf16_string_literal`,
+    `read_utf32_string_literal` (hand model `readString` with the reader of the dispatch table; `readerT` selects the translated
+    function, `mkTok` builds the model's token from the units and the end index it returns) and `read_char_literal` are equal, on
+    every text and position, to the functions translated from tokenize.c — including which diagnostic is raised.  With
+    `C11_translated_readers` every function that `C11_strings`, `C11_string_char`, `C11_char_const` and the escape theorems
+    reason about is the C code as translated; what remains hand-written in the literal arms of tokenize() is the pp-number
+    scan, the `convert_pp_int` driver around libc `strtoul`, and the prefix dispatch order (tables translated). -/
+theorem C11_translated_literal_readers :
+    (∀ (r : StrReader) (ty : Ty) (p : List Byte) (q : Nat),
+      readString r ty p q = ((readerT r p q).mapError ofReadErr).map (mkTok ty p)) ∧
+    (∀ (p : List Byte) (q : Nat),
+      readCharLiteral p q = (ChibiVerif.Gen.LitReaders.readCharLiteral p q).mapError ofReadErr) :=
+  ⟨readString_eq, readCharLiteral_eq⟩
+
+/-- **C11 (escape sequences, on the translated `read_escaped_char`).**  The statements of `C11_escape`, `C11_escape_octal` and
+    `C11_escape_hex` for the function generated from the C source: every simple escape of 6.4.4.4 followed by any text yields
+    its C11 value and consumes one byte; one to three octal digits; `\x` with every following hexadecimal digit. -/
+theorem C11_escape_translated :
+    (∀ e ∈ Spec.Literals.simpleEscapes, ∀ rest : List Byte,
+      ChibiVerif.Gen.LitReaders.readEscapedChar (BitVec.ofNat 8 e.1.toNat :: rest) = .ok (BitVec.ofNat 32 e.2, 1)) ∧
+    (∀ d0 < 8, ∀ d1 < 9, ∀ d2 < 9,
+      ChibiVerif.Gen.LitReaders.readEscapedChar
+          [BitVec.ofNat 8 (48 + d0), BitVec.ofNat 8 (48 + d1), BitVec.ofNat 8 (48 + d2), 0x37#8] =
+        .ok (if d1 = 8 then (BitVec.ofNat 32 (octalEscape [d0]), 1)
+             else if d2 = 8 then (BitVec.ofNat 32 (octalEscape [d0, d1]), 2)
+             else (BitVec.ofNat 32 (octalEscape [d0, d1, d2]), 3))) ∧
+    (∀ (x : Byte) (xs rest : List Byte), (∀ y ∈ x :: xs, isXDigit y = true) → isXDigit (byteAt rest 0) = false →
+      ChibiVerif.Gen.LitReaders.readEscapedChar (120#8 :: x :: (xs ++ rest)) =
+        .ok (BitVec.ofNat 32 (hexEscape ((x :: xs).map (fun d => hexDigitValue d.toNat))), 2 + xs.length)) := by
+  refine ⟨?_, by decide +kernel, ?_⟩
+  · intro e he rest
+    have key : ∀ e ∈ Spec.Literals.simpleEscapes,
+        isOctDigit (BitVec.ofNat 8 e.1.toNat) = false ∧ (BitVec.ofNat 8 e.1.toNat : Byte) ≠ 120#8 ∧
+        escapeValue (BitVec.ofNat 8 e.1.toNat) = BitVec.ofNat 32 e.2 := by decide
+    obtain ⟨h1, h2, h3⟩ := key e he
+    apply mapError_ok ofReadErr
+    rw [← readEscapedChar_eq]
+    simp [readEscapedChar, byteAt_zero, h1, h2, h3]
+  · intro x xs rest hx hend
+    apply mapError_ok ofReadErr
+    rw [← readEscapedChar_eq]
+    exact readEscapedChar_hex x xs rest hx hend
+
+example : (∀ y ∈ [0x34#8, 0x31#8], isXDigit y = true) ∧ isXDigit (byteAt [0x22#8] 0) = false := by decide
+
+/-- **C11 (the phase functions are the translated in-place loops).**  `canonicalize_newline`, `remove_backslash_newline` and
+    `convert_universal_chars` rewrite the text inside its own array.  Their translation (Gen/LitReadersGen.lean) keeps that: the
+    array is threaded through every store, reads see earlier stores, a store that does not land inside the text is `none`.  For
+    every text without NUL (and, for `convert_universal_chars`, ending in a newline as `read_file` guarantees) each translated
+    loop returns `some` of what the functional hand model of Model/Text.lean computes — so every `C11_text_*` theorem is about
+    the code as translated, and no store of the three loops leaves the text (the write index never passes the read index).
+    Last conjunct: the three loops in sequence, as `tokenize_file` calls them, give `phase12 s` for every file content. -/
+theorem C11_translated_phases :
+    (∀ t : List Byte, (0#8 : Byte) ∉ t → ChibiVerif.Gen.LitReaders.canonicalizeNewline t = some (canonicalizeNewline t)) ∧
+    (∀ t : List Byte, (0#8 : Byte) ∉ t →
+      ChibiVerif.Gen.LitReaders.removeBackslashNewline t = some (removeBackslashNewline t)) ∧
+    (∀ t : List Byte, (0#8 : Byte) ∉ t → (t = [] ∨ t.getLast? = some LF) →
+      ChibiVerif.Gen.LitReaders.convertUniversalChars t = some (convertUniversalChars t)) ∧
+    (∀ s : List Byte, (0#8 : Byte) ∉ s →
+      (ChibiVerif.Gen.LitReaders.canonicalizeNewline (skipBOM (ensureFinalNewline s)) >>=
+        ChibiVerif.Gen.LitReaders.removeBackslashNewline >>=
+        ChibiVerif.Gen.LitReaders.convertUniversalChars) = some (phase12 s)) :=
+  ⟨canonicalizeNewline_eq, removeBackslashNewline_eq, convertUniversalChars_eq, translated_pipeline⟩
+
+/-- non-vacuity: `"é"` CR LF `x\` LF `y` -/
+example : (0#8 : Byte) ∉ ([0x22#8, 92#8, 0x75#8, 0x30#8, 0x30#8, 0x65#8, 0x39#8, 0x22#8, 13#8, 10#8, 0x78#8, 92#8, 10#8, 0x79#8] : List Byte) ∧
+    (ChibiVerif.Gen.LitReaders.canonicalizeNewline (skipBOM (ensureFinalNewline
+        [0x22#8, 92#8, 0x75#8, 0x30#8, 0x30#8, 0x65#8, 0x39#8, 0x22#8, 13#8, 10#8, 0x78#8, 92#8, 10#8, 0x79#8])) >>=
+      ChibiVerif.Gen.LitReaders.removeBackslashNewline >>= ChibiVerif.Gen.LitReaders.convertUniversalChars) =
+      some [0x22#8, 0xC3#8, 0xA9#8, 0x22#8, 10#8, 0x78#8, 0x79#8, 10#8, 10#8] := by decide
+
 -- ------------------------------------------------------------------ source text: composition with the tokenizer
 
 /-- **C11 (what `tokenize()` sees depends only on the unspliced text).**  For every file content `s`: the lines of the text
@@ -532,5 +630,30 @@ example : ([0x22#8, 92#8, 0x75#8, 0x30#8, 0x30#8] : List Byte).getLast? ≠ some
     LiteralOnFirstLine (phase12 ([0x22#8, 92#8, 0x75#8, 0x30#8, 0x30#8] ++ [0x65#8, 0x39#8, 0x22#8, 0x3B#8])) ∧
     lexLiteral (phase12 ([0x22#8, 92#8, 0x75#8, 0x30#8, 0x30#8] ++ BSL :: LF :: [0x65#8, 0x39#8, 0x22#8, 0x3B#8])) =
       .ok (.str ⟨.ty_char, [0xC3, 0xA9], 4, [0x22#8, 0xC3#8, 0xA9#8, 0x22#8]⟩) := by decide
+
+/-- **C11 (a backslash-newline anywhere, in files with any line-end convention).**  The same for file contents that contain
+    CR and CR LF line ends, and for every spelling of the inserted splice: backslash LF, backslash CR LF, backslash CR (the last one
+    not in front of an LF, which would make it a CR LF).  The CR hypothesis of `C11_text_transparent` shrinks to what is necessary:
+    the splice is not inserted between the CR and the LF of one line end. -/
+theorem C11_text_transparent_eol (a sp b : List Byte)
+    (hsp : sp = [BSL, LF] ∨ sp = [BSL, CR, LF] ∨ (sp = [BSL, CR] ∧ b.head? ≠ some LF))
+    (ha : a.getLast? ≠ some BSL) (hcr : ¬ (a.getLast? = some CR ∧ b.head? = some LF))
+    (hbom : 3 ≤ a.length ∨ (a ++ b).take 3 ≠ BOM) (hline : LiteralOnFirstLine (phase12 (a ++ b))) :
+    lexLiteral (phase12 (a ++ sp ++ b)) = lexLiteral (phase12 (a ++ b)) := by
+  have fl : firstLine (phase12 (a ++ sp ++ b)) = firstLine (phase12 (a ++ b)) := by
+    rw [firstLine_phase12, firstLine_phase12, firstLine_phase1_splice_eol a sp b hsp ha hcr hbom]
+  obtain ⟨w1, h1⟩ := split_at_lf _ (phase12_has_lf (a ++ sp ++ b))
+  obtain ⟨w2, h2⟩ := split_at_lf _ (phase12_has_lf (a ++ b))
+  have hline' : LiteralOnFirstLine (phase12 (a ++ sp ++ b)) := by unfold LiteralOnFirstLine; rw [fl]; exact hline
+  rw [C11_text_first_line _ w1 h1 hline', C11_text_first_line _ w2 h2 hline, fl]
+
+/-- non-vacuity: a CR LF file, `"ab` `\` CR LF `cd"; x` CR LF `y` CR LF, read as `"abcd"` -/
+example : ([0x22#8, 0x61#8, 0x62#8] : List Byte).getLast? ≠ some BSL ∧
+    ¬ (([0x22#8, 0x61#8, 0x62#8] : List Byte).getLast? = some CR ∧
+       ([0x63#8, 0x64#8, 0x22#8, 0x3B#8, 0x78#8, 13#8, 10#8, 0x79#8, 13#8, 10#8] : List Byte).head? = some LF) ∧
+    LiteralOnFirstLine (phase12 ([0x22#8, 0x61#8, 0x62#8] ++ [0x63#8, 0x64#8, 0x22#8, 0x3B#8, 0x78#8, 13#8, 10#8, 0x79#8, 13#8, 10#8])) ∧
+    lexLiteral (phase12 ([0x22#8, 0x61#8, 0x62#8] ++ [BSL, CR, LF] ++
+        [0x63#8, 0x64#8, 0x22#8, 0x3B#8, 0x78#8, 13#8, 10#8, 0x79#8, 13#8, 10#8])) =
+      .ok (.str ⟨.ty_char, [0x61, 0x62, 0x63, 0x64], 6, [0x22#8, 0x61#8, 0x62#8, 0x63#8, 0x64#8, 0x22#8]⟩) := by decide
 
 end ChibiVerif.Props.C11
